@@ -182,4 +182,107 @@ theorem normalMatchLoop_thr {P : NormalParams} {d : Array UInt8} {dict p : Nat} 
         have := lensIncreasing_head m m' r' hinc
         omega
 
+theorem le_last : ∀ ms : List Match, lensIncreasing ms = true → ∀ m ∈ ms, m.1 ≤ (ms.getLast?.getD (0, 0)).1
+  | [], _, m, hm => absurd hm (List.not_mem_nil)
+  | [x], _, m, hm => by
+    have : m = x := by simpa using hm
+    subst this
+    simp only [List.getLast?_singleton, Option.getD_some, Nat.le_refl]
+  | x :: y :: rest, h, m, hm => by
+    have ih := le_last (y :: rest) (lensIncreasing_tail x _ h)
+    have hxy := lensIncreasing_head x y rest h
+    have hl : (x :: y :: rest).getLast? = (y :: rest).getLast? := by
+      simp only [List.getLast?_cons_cons]
+    rw [hl]
+    rcases List.mem_cons.mp hm with rfl | hm
+    · have := ih y (List.mem_cons_self ..)
+      omega
+    · exact ih m hm
+
+theorem shortenMatches_ok (d : Array UInt8) (dict q avail : Nat) (h2 : 2 ≤ avail) (ms : List Match)
+    (hv : AllValid d dict q ms) (hinc : lensIncreasing ms = true) :
+    AllValid d dict q (shortenMatches ms avail) ∧ lensIncreasing (shortenMatches ms avail) = true ∧
+      ∀ m ∈ shortenMatches ms avail, m.1 ≤ avail := by
+  unfold shortenMatches
+  split
+  · exact ⟨shortenList_valid d dict q avail h2 ms hv, shortenList_inc avail ms hinc, shortenList_head_le avail ms⟩
+  · next hn =>
+    refine ⟨hv, hinc, fun m hm => ?_⟩
+    have := le_last ms hinc m hm
+    omega
+
+theorem calcNormalMatchPrices_thr {P : NormalParams} {d : Array UInt8} {dict p : Nat} {c0 : Coder} {avail0 cur b : Nat}
+    {cc : Coder} {lo : Nat} {a : OA}
+    (E : Env) (hEP : E.P = P) (hEd : E.d = d) (hpos : PosOk P d p avail0 cur E.nice) (hav2 : 2 ≤ avail0 - cur)
+    (h : Thr P d dict p c0 avail0 cur b cc lo a) (ms0 : List Match) (hv : AllValid d dict (p + cur) ms0)
+    (hinc : lensIncreasing ms0 = true) (anyMatch startLen : Nat) (hs2 : 2 ≤ startLen) :
+    Thr P d dict p c0 avail0 cur b cc lo (calcNormalMatchPrices E a ms0 cur (p + cur) (avail0 - cur) anyMatch startLen) := by
+  have hav1 : avail0 < P.opts := hpos.av1
+  obtain ⟨hv', hinc', hle'⟩ := shortenMatches_ok d dict (p + cur) (avail0 - cur) hav2 ms0 hv hinc
+  unfold calcNormalMatchPrices
+  simp only
+  generalize shortenMatches ms0 (avail0 - cur) = ms at hv' hinc' hle' ⊢
+  split
+  · exact h
+  · next hge =>
+    have hlast : (ms.getLast?.getD (0, 0)).1 ≤ avail0 - cur := by
+      cases hl : ms.getLast? with
+      | none => simp only [Option.getD_none]; omega
+      | some x => simp only [Option.getD_some]; exact hle' x (List.mem_of_getLast? hl)
+    have h1 := h.extend hav1 (cur + (ms.getLast?.getD (0, 0)).1) (by rw [← hEP] at hav1; have := hpos.curLt; omega)
+    rw [hEP]
+    refine (normalMatchLoop_thr E hEP hEd hpos _ _ _ startLen (dropShort startLen ms) _ h1
+      (fun m hm => hv' m (dropShort_sub _ _ _ hm)) (dropShort_inc _ _ hinc') ?_
+      (fun m hm => hle' m (dropShort_sub _ _ _ hm)) hs2 (fun m rest he => dropShort_head _ _ _ _ he)).mono_lo (by omega)
+    intro m hm
+    have := le_last ms hinc' m (dropShort_sub _ _ _ hm)
+    have := h1.2.2.1
+    omega
+
+/-! ### the first part of `get_next_symbol` (position 0) -/
+
+theorem firstMatchLoop_thr {P : NormalParams} {d : Array UInt8} {dict p : Nat} {c0 : Coder} {avail0 b : Nat}
+    {cc : Coder} {lo : Nat}
+    (E : Env) (hEP : E.P = P) (hav1 : avail0 < P.opts) (hreps : P.reps = 4) (posState nmp : Nat) :
+    ∀ (fuel len : Nat) (ms : List Match) (a : OA), Thr P d dict p c0 avail0 0 b cc lo a →
+      AllValid d dict p ms → lensIncreasing ms = true → (∀ m ∈ ms, m.1 ≤ a.optEnd) → 2 ≤ len →
+      (∀ m rest, ms = m :: rest → len ≤ m.1) →
+      Thr P d dict p c0 avail0 0 b cc lo (firstMatchLoop E posState nmp fuel len ms a)
+  | 0, len, ms, a, h, _, _, _, _, _ => by rw [firstMatchLoop]; exact h
+  | fuel + 1, len, [], a, h, _, _, _, _, _ => by
+    rw [firstMatchLoop]
+    · exact h
+    · omega
+  | fuel + 1, len, m :: rest, a, h, hv, hinc, hend, h2, hle => by
+    have hlen := hle m rest rfl
+    have hvm := hv m (List.mem_cons_self ..)
+    have hendm := hend m (List.mem_cons_self ..)
+    rw [firstMatchLoop]
+    generalize matchAndLenPrice E.pt nmp m.2 len posState = price
+    have h1 := h.offer hav1 len price (fun o => o.set1 price 0 ((m.2 : Int) + (E.P.reps : Int))) (by omega)
+      (by omega) (fun o => rfl) (by
+        intro o hoc ho
+        refine candOk_set1 (cur := 0) o len price _ _ ho (by omega) (Or.inr ⟨by omega, by omega⟩) ?_
+        rw [hEP, symOf_mtch P hreps, hoc]
+        simp only [Nat.sub_zero, Nat.add_zero]
+        exact cand_mtch d dict p cc m.2 len m.1 hvm h2 hlen)
+    have hoe := offer_optEnd a len price (fun o => o.set1 price 0 ((m.2 : Int) + (E.P.reps : Int)))
+    generalize (a.offer len price fun o => o.set1 price 0 ((m.2 : Int) + (E.P.reps : Int))) = a1 at h1 hoe ⊢
+    split
+    · next heq =>
+      split
+      · exact h1
+      · next hrest =>
+        refine firstMatchLoop_thr E hEP hav1 hreps posState nmp fuel (len + 1) rest a1 h1
+          (fun x hx => hv x (List.mem_cons_of_mem _ hx)) (lensIncreasing_tail m rest hinc)
+          (fun x hx => by rw [hoe]; exact hend x (List.mem_cons_of_mem _ hx)) (by omega) ?_
+        intro m' r' he
+        subst he
+        have := lensIncreasing_head m m' r' hinc
+        omega
+    · next hne =>
+      exact firstMatchLoop_thr E hEP hav1 hreps posState nmp fuel (len + 1) (m :: rest) a1 h1 hv hinc
+        (fun x hx => by rw [hoe]; exact hend x hx) (by omega)
+        (fun m' r' he => by injection he with e1 e2; subst e1; omega)
+
 end LzmaVerif.EncNormal
